@@ -20,6 +20,7 @@ import (
 	"net/http"
 	"net/url"
 	"os"
+	"strings"
 	"sync"
 	"syscall"
 	"time"
@@ -487,6 +488,12 @@ func VerifEngine() {
 	r.Header.Set("Content-Type", "application/json")
 	r.Header.Set("X-Custom", "kept")
 	r.Header.Set("Authorization", "Bearer secret")
+	r.Header.Set("Cookie", "session=1")
+	r.Header.Set("X-Api-Key", "k")
+	r.Header.Set("Connection", "keep-alive")
+	r.Header.Set("Keep-Alive", "timeout=5")
+	r.Header.Set("Proxy-Authorization", "Basic x")
+	r.Header.Set("X-Forwarded-For", "203.0.113.9")
 	r.RemoteAddr = "10.1.2.3:5555"
 	world.streaming = profile == constants.ConfigurationProxyProfileStreaming
 
@@ -530,6 +537,14 @@ func VerifEngine() {
 			gosym.Assert(a.rawQuery == "stream=true&x=%20y", "C01: the backend receives the query string verbatim")
 			gosym.Assert(zzBytesEq(a.body, bodyBytes), "C01: every attempt carries the client's body byte for byte")
 			gosym.Assert(a.header.Get("X-Custom") == "kept", "C01: end-to-end request headers reach the backend")
+		}
+		if is(15) {
+			for _, h := range []string{"Authorization", "Cookie", "X-Api-Key", "Proxy-Authorization", "Connection", "Keep-Alive"} {
+				gosym.Assert(len(a.header.Values(h)) == 0, "C15: no attempt (first or failed-over) carries the client's credentials or hop-by-hop headers")
+			}
+			gosym.Assert(a.header.Get("X-Custom") == "kept", "C15: other client headers arrive unchanged on every attempt")
+			xff := a.header.Values("X-Forwarded-For")
+			gosym.Assert(len(xff) > 0 && strings.Contains(strings.Join(xff, ", "), "203.0.113.9"), "C15: the existing X-Forwarded-For value is kept when Olla appends its own")
 		}
 		if a.script != nil && a.script.fault == zzAnswers {
 			if is(2) {
